@@ -617,14 +617,15 @@ EXCLUDED_POINTS = [
     ("int/float mixture", [("s", False, "i64", 1), ("s", False, "f64", 2.5)]),
     ("two-level ragged python lists of different outer length",
      [("m", False, "i64", [[1, 2], [3]]), ("m", False, "i64", [[4], [5, 6], [7]])]),
-    ("numpy bool scalar among ragged arrays", [("s", True, "b", True), ("l", False, "b", [True, False])]),
+    ("numpy bool scalar among ragged arrays (refused since fix 8558ef4)", [("s", True, "b", True), ("l", False, "b", [True, False])]),
     ("str scalar among ragged arrays", [("s", False, "str", "a"), ("l", False, "str", ["b", "c"])]),
-    ("str scalar next to an empty list", [("n",), ("l", False, "str", []), ("s", False, "str", "x y"), ("n",)]),
+    ("str scalar next to an empty list (refused since fix 8558ef4)", [("n",), ("l", False, "str", []), ("s", False, "str", "x y"), ("n",)]),
     ("uint8 + None (F6a, fixed)", [("s", True, "u8", 5), ("n",), ("s", True, "u8", 2)]),
     ("numpy int scalar among ragged (F6b, fixed)", [("s", True, "i64", 3), ("l", False, "i64", [1, 2]), ("l", False, "i64", [4, 5, 6])]),
     ("bool + None", [("s", False, "b", True), ("n",)]),
     ("str + None", [("s", False, "str", "a"), ("n",), ("s", False, "str", "bcd")]),
     ("dict + None", [("d", [("a", 1.0)]), ("n",)]),
+    ("dict among ragged lists (refused since fix 8558ef4)", [("d", [("a", 1.0)]), ("l", False, "f64", [1.0, 2.0]), ("l", False, "f64", [3.0])]),
     ("dict with NaN value", [("d", [("a", 1.0), ("b", float("nan"))]), ("d", [("a", 2.0)])]),
     ("empty among ragged", [("l", False, "i64", [1, 2]), ("l", False, "i64", []), ("l", False, "i64", [3])]),
     ("float NaN + None", [("s", False, "f64", 1.0), ("s", False, "f64", float("nan")), ("n",)]),
